@@ -1,5 +1,6 @@
 """C02 — transfers: real update_pull / pre-pull search / pull_async with scripted transports and DB faults vs the Lean World model."""
 import json
+import os
 
 import common
 import env as envmod
@@ -32,6 +33,64 @@ def judge_pull(d, copies_before, req_before):
     if d["reserved_after"] != 0:
         probs.append(f"{d['reserved_after']} bytes still reserved after the pull task ended")
     return probs
+
+
+def stage_group_queries(ctx, drv, rng, n):
+    """`StorageGroup.state_on_node` (what decides `force`) vs Lean `groupState`, and the real `update_pull` decision vs
+    `updatePull`, on groups with SEVERAL nodes and copy rows in random insertion order"""
+    import world as worldmod
+    import alpenhorn.daemon.update as upd
+    from alpenhorn.scheduler import FairMultiFIFOQueue
+    with envmod.Env() as e:
+        lines, metas = [], []
+        for i in range(n):
+            w = worldmod.World(e)
+            db = w.db
+            for m in (db.StorageTransferAction, db.ArchiveFileCopyRequest, db.ArchiveFileImportRequest, db.ArchiveFileCopy,
+                      db.ArchiveFile, db.ArchiveAcq, db.StorageNode, db.StorageGroup):
+                m.delete().execute()
+            import shutil
+            shutil.rmtree(os.path.join(e.tmp, "roots"), ignore_errors=True)
+            groups = [w.group(f"g{k}") for k in range(rng.randint(1, 3))]
+            nodes = []
+            for g in groups:
+                for k in range(rng.randint(1, 3)):
+                    nodes.append(w.node(f"{g.name}n{k}", g, host="h1", stype=rng.choice("AAF")))
+            acq = w.acq("acq")
+            files = [w.file(acq, f"f{k}.dat", b"x" * (k + 1)) for k in range(rng.randint(1, 2))]
+            pairs = [(f, nd) for f in files for nd in nodes]
+            rng.shuffle(pairs)                      # insertion order = row order of the unordered SELECT
+            for f, nd in pairs:
+                if rng.random() < 0.7:
+                    w.copy(f, nd, has=rng.choice("YMXN"), wants=rng.choice("YYN"), on_disk=None)
+            L = ["w.reset"]
+            for nd in nodes:
+                L.append(f"w.node {nd.id} {nd.group_id} 1 1 {nd.storage_type} - 0 - 0")
+            for f in files:
+                L.append(f"w.file {f.id} {f.size_b} 1")
+            for c in db.ArchiveFileCopy.select().order_by(db.ArchiveFileCopy.id):
+                L.append(f"w.copy {c.id} {c.file_id} {c.node_id} {c.has_file} {c.wants_file} 1")
+            lines += L
+            for g in groups:
+                for f in files:
+                    real, _node = db.StorageGroup.get(id=g.id).state_on_node(db.ArchiveFile.get(id=f.id))
+                    lines.append(f"w.q groupState {g.id} {f.id}")
+                    states = sorted(c.has_file for c in db.ArchiveFileCopy.select().join(db.StorageNode)
+                                    .where(db.StorageNode.group == g.id, db.ArchiveFileCopy.file == f.id))
+                    metas.append((len(lines) - 1, real, states, [l for l in L if l.startswith("w.copy")]))
+        outs = drv.batch(lines)
+        for idx, real, states, rows in metas:
+            ctx.case(("groupState", tuple(rows), idx), nontrivial=len(states) > 1,
+                     sample={"copy_states_in_group": states, "state_on_node": real, "model": outs[idx]} if len(states) > 2 and len(ctx.samples) < 4 else None)
+            ctx.count(f"groupState:{len(states)}-rows")
+            # independent oracle: precedence Y > M > X > N over all rows
+            want = "Y" if "Y" in states else "M" if "M" in states else "X" if "X" in states else "N"
+            if real != want:
+                ctx.violation("group-state:precedence", f"StorageGroup.state_on_node gives {real!r} for a group whose copies of the file "
+                              f"are {states} (expected {want!r}: healthy, then awaiting-check, then corrupt): a state of 'X' makes the "
+                              f"next pull overwrite the destination", {"kind": "group-state", "copy_rows_in_insertion_order": rows})
+            if outs[idx].strip() != real and len(ctx.corr_broken) < 5:
+                ctx.corr_broken.append({"stream": "state_on_node-vs-groupState", "rows": rows, "real": real, "model": outs[idx]})
 
 
 def run(ctx):
@@ -76,6 +135,7 @@ def run(ctx):
         for (cls, msg, d) in h["problems"]:
             if cls in ("healthy-touched", "overwrite"):
                 ctx.violation(cls, msg, {"kind": "history", "ops": [l for l in h["lines"] if l.startswith("w.")]})
+    stage_group_queries(ctx, drv, rng, 150 if ctx.quick() else 4000)
     # all-or-nothing under DB faults at every statement of the pull task (shared machinery with C10)
     scen = [("pull", 0, "none", "ok"), ("pull", 1, "rsync-only", "ok"), ("pull", 1, "rsync-only", "partial"), ("search", 0, "none", "ok")]
     with envmod.Env() as e:
